@@ -36,6 +36,16 @@ CHECKS = {
              'aggregate bits and requested amounts; z3 proves listed <=> '
              'matches(p) for every provider on every path.',
         ref='DESIGN.md section 5 C13, Appendix B'),
+    'C19': dict(
+        text='(a) z3 regular-expression inclusion of the real schema '
+             'patterns (Python search/$ semantics) in CUSTOM_[A-Z0-9_]+ for '
+             'all strings up to maxLength, witnesses replayed through the '
+             'API; (b) symbolic execution of class creation over a table '
+             'with symbolic custom ids proving id >= 10000 and uniqueness; '
+             '(c) start-up sync from every subset of present standard rows '
+             '(4+4 symbols) proving presence, fixed ids, idempotence; (d) '
+             'standard names immutable.',
+        ref='DESIGN.md section 5 C19'),
     'C20': dict(
         text='Bounded symbolic model checking: unlimited and limit=1..M+1 '
              'requests run in one path over a symbolic state; random.sample/'
